@@ -74,6 +74,7 @@ inductive CEv
   | wireStart (task : Nat) (t : Rat)
   | wireEnd (task : Nat) (t : Rat)
   | close (task : Nat)
+  deriving DecidableEq
 
 /-- the task an event belongs to (a task's creation belongs to the created task for `client`,
     to the creating task for `spawn`) -/
